@@ -23,7 +23,7 @@ EXPLANATION = 'theorems about the builder models; correspondence; metamorphic or
 
 
 def scenarios(seed, tier):
-    n = 120 if tier == 'quick' else 1200
+    n = 240 if tier == 'quick' else 1440
     rnd = random.Random(seed * 7919 + 8)
     for i in range(n):
         yield 'build%d' % i, {'stream': 'build', 'case': CT.gen_case(random.Random(rnd.getrandbits(48)), malformed=(i % 6 == 5))}
